@@ -45,7 +45,11 @@ def full_load(case, r):
                           ("boundaries", case["nboundary"] > 0), ("noutput_gt1", case["noutput"] > 1),
                           ("key16", case["keysize"] == 16), ("grav", case["grav"]), ("rt", bool(case["rt_vars"])),
                           ("minus1", case["use_minus1"]), ("multi_level", levels_with_leaves >= 2),
-                          ("mhd", any(v.startswith("B_") for v in case["hydro_vars"]))]:
+                          ("mhd", any(v.startswith("B_") for v in case["hydro_vars"])),
+                          ("cpu_two_digits", case["ncpu"] >= 10),
+                          ("momentum_or_energy_variable", any(v.startswith("momentum_") or v in ("energy", "radiative_energy")
+                                                              for v in case["hydro_vars"])),
+                          ("B_left_x_spelling", any(v.startswith("B_left_") for v in case["hydro_vars"]))]:
             if cond:
                 r.label(lab)
         r.nontrivial(case["ncpu"] > 1 and m.n_ghost_octs > 0 and levels_with_leaves >= 2)
